@@ -472,7 +472,7 @@ async fn interp(case: &Case, gates: Gates, v: &mut Verdict) {
                 let started = Arc::new(Mutex::new(false));
                 held[i].conn.gated_panic(gates.clone(), g, started.clone()).await;
                 // wait until the closure really holds the connection
-                for _ in 0..200 {
+                for _ in 0..20000 {
                     if *lock(&started) {
                         break;
                     }
@@ -494,7 +494,7 @@ async fn interp(case: &Case, gates: Gates, v: &mut Verdict) {
                 }
                 let started = Arc::new(Mutex::new(false));
                 held[i].conn.gated_break(gates.clone(), g, started.clone(), sstate.clone()).await;
-                for _ in 0..200 {
+                for _ in 0..20000 {
                     if *lock(&started) {
                         break;
                     }
